@@ -415,6 +415,17 @@ def main():
     if mach and model_bin_ok:
         print(f'ERROR machinery: {len(mach)} line(s) not executable by harness or model, e.g. {mach[:3]}')
         sys.exit(3)
+    if not model_bin_ok:
+        # the model driver does not build (only possible when a regenerated file — Extracted.lean, CB/Gen — no longer fits the
+        # hand-written model, or /verif itself is broken): no line can be judged; this is a broken proof obligation /
+        # correspondence, never a per-line violation
+        os.makedirs(os.path.join(VERIF, 'replays'), exist_ok=True)
+        rpath = os.path.join(VERIF, 'replays', f'{pid}-{tier}-{seed}-unproved.json')
+        json.dump(dict(property=pid, violation=True, kind='no-failing-input-found',
+                       what=['the Lean model driver (cbmodel) no longer builds against the files regenerated from /repo: neither the theorems nor the correspondence can be checked'],
+                       lean_log=po['log'][-3000:], seed=seed, tier=tier), open(rpath, 'w'), indent=1)
+        print(f'VIOLATION property={pid} replay={rpath} no-failing-input-found')
+        sys.exit(1)
 
     findings = load_findings()
     canon = getattr(gmod, 'canon', None)
